@@ -57,6 +57,7 @@ type interpreter struct {
 	fatal              interface{}
 	switches           int
 	timers             []*timerState
+	afterChans         []*schan
 	clock              int64
 	mutexes            map[*value]*mutexState
 	ghost              map[string]value
